@@ -367,9 +367,6 @@ func (ap *applier) at(node *T, path []PE) (*T, *Reject) {
 func (ap *applier) listHunk(node *T, i int) (*T, *Reject) {
 	h := ap.h
 	l := node.A
-	if len(h.Before) > 1 || len(h.After) > 1 {
-		return nil, ap.nov("more than one context line")
-	}
 	for _, v := range h.Remove {
 		if IsVoid(v) {
 			return nil, ap.nov("void in strict remove")
@@ -386,18 +383,22 @@ func (ap *applier) listHunk(node *T, i int) (*T, *Reject) {
 	if i > len(l) {
 		return nil, ap.rej("index beyond array")
 	}
-	if len(h.Before) == 1 {
-		if IsVoid(h.Before[0]) {
-			if i != 0 {
+	// Several context lines (hand-written hunks): the k-th of m before-lines stands for the element at
+	// i-m+k, the k-th after-line for the element at i+r+k; '[' and ']' stand for the position just
+	// outside the array and nothing else.
+	for k, b := range h.Before {
+		pos := i - len(h.Before) + k
+		if IsVoid(b) {
+			if pos != -1 {
 				return nil, ap.rej("boundary mismatch: [ not at start")
 			}
-		} else {
-			if i < 1 {
-				return nil, ap.rej("before mismatch: no element before index 0")
-			}
-			if !eqList(l[i-1], h.Before[0]) {
-				return nil, ap.rej("before mismatch")
-			}
+			continue
+		}
+		if pos < 0 {
+			return nil, ap.rej("before mismatch: no element before index 0")
+		}
+		if !eqList(l[pos], b) {
+			return nil, ap.rej("before mismatch")
 		}
 	}
 	r := len(h.Remove)
@@ -409,18 +410,19 @@ func (ap *applier) listHunk(node *T, i int) (*T, *Reject) {
 			return nil, ap.rej("remove mismatch")
 		}
 	}
-	if len(h.After) == 1 {
-		if IsVoid(h.After[0]) {
-			if i+r != len(l) {
+	for k, a := range h.After {
+		pos := i + r + k
+		if IsVoid(a) {
+			if pos != len(l) {
 				return nil, ap.rej("boundary mismatch: ] not at end")
 			}
-		} else {
-			if i+r >= len(l) {
-				return nil, ap.rej("after mismatch: no element after")
-			}
-			if !eqList(l[i+r], h.After[0]) {
-				return nil, ap.rej("after mismatch")
-			}
+			continue
+		}
+		if pos >= len(l) {
+			return nil, ap.rej("after mismatch: no element after")
+		}
+		if !eqList(l[pos], a) {
+			return nil, ap.rej("after mismatch")
 		}
 	}
 	for j := 0; j < r; j++ {
